@@ -36,6 +36,8 @@ def matrix(tier):
                 jobs.append(dict(fmt=fmt, kind=k1, kind2=k2, position='cell', version='3.0', N=2, N2=2, alphabet=META, timeout=1500))
         jobs.append(dict(fmt=fmt, kind='str', position='cell', version='3.0', N=min(nmax, 2), multi=True, timeout=300 if tier == 'quick' else 1500))
         jobs.append(dict(fmt=fmt, kind='uri', position='cell', version='3.0', N=1, multi=True, timeout=300))
+        # concrete: the same text carried by two different kinds in neighbouring cells, both orders
+        jobs.append(dict(fmt=fmt, kind='catalog', extra='pairs', positions=['cell'], version='3.0', N=0, timeout=300))
     return jobs
 
 
